@@ -1769,6 +1769,69 @@ func ruleCDC8(w *World, r *Report) {
 	} else {
 		r.Und("CDC-8", "arm:VDROP", "", "replay arm missing")
 	}
+	// ... and whether it does is decided by asking the DB, never by a look-up in the aggregation map: a restored index
+	// has an aggregation state only once some record of this log has touched it, so a test of the map misses every
+	// index the log merely drops. (The drop call must stay reachable whichever way a test of the map turns out.)
+	if arm := rt.Arms["VDROP"]; arm != nil {
+		if fn := w.SSAFunc(fi.Obj); fn != nil {
+			inArm := func(p token.Pos) bool { return p >= arm.Clause.Pos() && p <= arm.Clause.End() }
+			drops := findInstrs(fn, func(in ssa.Instruction) bool {
+				c, ok := in.(*ssa.Call)
+				return ok && calleeObj(&c.Call) == dropIdx && inArm(c.Pos())
+			})
+			var fromAgg func(v ssa.Value, depth int) bool
+			fromAgg = func(v ssa.Value, depth int) bool {
+				if depth > 12 {
+					return false
+				}
+				switch x := v.(type) {
+				case *ssa.Lookup:
+					if mt, ok := x.X.Type().Underlying().(*types.Map); ok && strings.HasSuffix(mt.Elem().String(), "indexState") {
+						return true
+					}
+					return false
+				case *ssa.Call, *ssa.Const, *ssa.Parameter, *ssa.Global, *ssa.FreeVar, *ssa.Alloc, *ssa.MakeClosure:
+					return false
+				}
+				in, ok := v.(ssa.Instruction)
+				if !ok {
+					return false
+				}
+				for _, op := range in.Operands(nil) {
+					if *op != nil && fromAgg(*op, depth+1) {
+						return true
+					}
+				}
+				return false
+			}
+			for i, d := range drops {
+				dd := d
+				bad := false
+				var at token.Pos
+				for _, b := range fn.Blocks {
+					if len(b.Instrs) == 0 {
+						continue
+					}
+					iff, ok := b.Instrs[len(b.Instrs)-1].(*ssa.If)
+					if !ok || !fromAgg(iff.Cond, 0) {
+						continue
+					}
+					for si := range b.Succs {
+						reach, _ := (pathQuery{fn: fn, target: func(in ssa.Instruction) bool { return in == dd }, blocked: map[edgeKey]bool{{b, si}: true}}).find(entryPos(fn))
+						if !reach {
+							bad = true
+							at = iff.Cond.Pos()
+						}
+					}
+				}
+				pos := w.Pos(d.Pos())
+				if bad && at.IsValid() {
+					pos = w.Pos(at)
+				}
+				r.Cond(!bad, "CDC-8", fmt.Sprintf("arm:VDROP:drop-decided-by-the-DB#%d", i+1), pos, "DB.DeleteVectorIndex stays reachable whichever way any test of the aggregation map turns out: whether a restored index is dropped is decided by asking the DB", "the VDROP arm drops the snapshot-restored index only when the aggregation map has a state for the name: a restored index gets one only once some record of this log touched it, so an index that the log merely drops (snapshot, then VDROP) is back after the restart")
+			}
+		}
+	}
 	// apply phase: deletions reach the live index
 	del1 := w.FuncObj("pkg/core/hnsw", "Index.Delete")
 	applies := false
